@@ -347,14 +347,14 @@ class Monitor:
                 if T.is_persistent(c):
                     val = NONE
                     for (pk, ptt, ott, data) in self.outs[p]:
-                        if "po" in data.get(se, {}) and T.arrive(c, ott) <= tt:
-                            val = data[se]["po"]
+                        if c["sattr"] in data.get(se, {}) and T.arrive(c, ott) <= tt:
+                            val = data[se][c["sattr"]]
                     if val is NONE and c.get("init"):
                         val = init_token(c)
                     slot[key] = val
                 else:
-                    due = [(pk, data[se]["eo"]) for (pk, ptt, ott, data) in self.outs[p]
-                           if "eo" in data.get(se, {}) and T.arrive(c, ott) <= tt
+                    due = [(pk, data[se][c["sattr"]]) for (pk, ptt, ott, data) in self.outs[p]
+                           if c["sattr"] in data.get(se, {}) and T.arrive(c, ott) <= tt
                            and pk not in consumed[ci]]
                     if due:
                         for pk, _ in due:
@@ -382,7 +382,7 @@ class Monitor:
         if not isinstance(token, str):
             return None
         t = token[:-1] if token.endswith("e") else token
-        t = t[:-1] if t.endswith("F") else t          # second entity
+        t = t[:-1] if t.endswith(("F", "K")) else t   # second entity / child entity
         for p in self.T.sims:
             if t.startswith(p) and t[len(p):].isdigit():
                 return p, int(t[len(p):])
@@ -588,8 +588,8 @@ class Monitor:
                 if not c.get("sattr") or T.is_persistent(c) or not T.is_trigger(c):
                     continue
                 se = c.get("seid", "e")
-                lostv = [data[se]["eo"] for (pk, ptt, ott, data) in self.outs[c["src"]]
-                         if "eo" in data.get(se, {}) and T.arrive(c, ott)[0] < self.until
+                lostv = [data[se][c["sattr"]] for (pk, ptt, ott, data) in self.outs[c["src"]]
+                         if c["sattr"] in data.get(se, {}) and T.arrive(c, ott)[0] < self.until
                          and pk not in consumed[ci]]
                 if lostv:
                     self.viol.append(dict(
